@@ -9,7 +9,7 @@ import argparse, json, os, shutil, subprocess, sys, tempfile, concurrent.futures
 
 VERIF = os.path.dirname(os.path.dirname(os.path.abspath(__file__)))
 REPO = os.environ.get("SIPVET_REPO", "/repo")
-BIN = os.path.join(VERIF, "bin", "sipvet")
+BIN = os.environ.get("SIPVET_BIN", os.path.join(VERIF, "bin", "sipvet"))
 ENV = dict(os.environ, GOFLAGS="-mod=readonly", GOPROXY="off", GOSUMDB="off", GOTOOLCHAIN="local", GOWORK="off")
 
 
